@@ -321,6 +321,7 @@ func c08One(ctx *evid.Ctx, a *refsem.Arch, j c08Job, maxKill int, children, even
 			ctx.Violation("C08:load-failed:"+j.label, "LoadFilter failed for a valid probe policy: "+*ld.Err, rep)
 			return
 		}
+		ld.Seam = installCalls(ld.Seam)
 		if len(ld.Seam) != 1 || ld.Seam[0].Len != len(prog) || ld.Seam[0].Hash != hashInsns(prog) {
 			ctx.Violation("C08:installed-differs:"+j.label, fmt.Sprintf("program handed to seccomp(2) (len/hash %v) is not the compiled one (len %d hash %s)", ld.Seam, len(prog), hashInsns(prog)), rep)
 		}
@@ -331,6 +332,7 @@ func c08One(ctx *evid.Ctx, a *refsem.Arch, j c08Job, maxKill int, children, even
 				ctx.Violation("C08:second-load-failed:"+j.label, "LoadFilter of the same filter on a second thread failed: "+*l2.Err, rep)
 				return
 			}
+			l2.Seam = installCalls(l2.Seam)
 			if len(l2.Seam) != 1 || l2.Seam[0].Len != len(prog) || l2.Seam[0].Hash != hashInsns(prog) {
 				ctx.Violation("C08:installed-differs:second-load:"+j.label, fmt.Sprintf("program handed to seccomp(2) by the second thread's load (len/hash %v) is not the compiled one (len %d hash %s)", l2.Seam, len(prog), hashInsns(prog)), rep)
 			}
